@@ -321,6 +321,49 @@ theorem run_blocking_invariant (chans : List String) (speakers : Option (List Sp
     · rintro ⟨fr, ⟨b, hb, hfr⟩, x⟩
       exact ⟨b, hb, fr, hfr, x⟩
 
+/-- **Fail-on-overload, in terms of the output samples.** `run` sets `failed` (where the real `run` raises
+"error: output overloaded" after the file has been written) exactly when `fail_on_overload` is on and some sample of
+the scaled, upmixed output (the concatenation of all blocks, before quantisation) has magnitude greater than 1. -/
+theorem run_failed_iff_samples (chans : List String) (speakers : Option (List Speaker)) (gain : Rat) (f : Bool)
+    (M : Int) (rendered : List (List (List Rat)))
+    (hlen : ∀ b ∈ rendered, ∀ fr ∈ b, fr.length = chans.length) :
+    (run chans speakers gain f M rendered).failed = true ↔
+      f = true ∧ ∃ fr ∈ outBlock gain (speakers.map fun sp => upmix sp chans) rendered.flatten,
+        ∃ x ∈ fr, 1 < rabs x := by
+  have h1 : ∀ b ∈ rendered.map (outBlock gain (speakers.map fun sp => upmix sp chans)), ∀ fr ∈ b,
+      fr.length = nChannels chans speakers := by
+    intro b hb fr hfr
+    rw [List.mem_map] at hb
+    obtain ⟨b0, hb0, rfl⟩ := hb
+    exact outBlock_frame_len chans speakers gain b0 (hlen b0 hb0) fr hfr
+  rw [run_failed_iff]
+  simp only [run]
+  rw [overload_iff _ _ h1, ← outBlock_flatten]
+  simp only [List.mem_flatten]
+  constructor
+  · rintro ⟨hf, b, hb, fr, hfr, x⟩
+    exact ⟨hf, fr, ⟨b, hb, hfr⟩, x⟩
+  · rintro ⟨hf, fr, ⟨b, hb, hfr⟩, x⟩
+    exact ⟨hf, b, hb, fr, hfr, x⟩
+
+/-- `run` with the channel count and the upmix matrix given directly, as `OfflineRenderDriver.run` has them after
+`load_output_layout` (`n_channels`, `upmix`): `run` is this with `nChannels chans speakers` and
+`speakers.map (upmix · chans)`. Used to state what a speakers file WITHOUT a `speakers` list does (`upmix = eye(n)`,
+which is not of the form `upmix sp chans`). -/
+def runU (n : Nat) (U : Option (List (List Rat))) (gain : Rat) (failOnOverload : Bool) (M : Int)
+    (rendered : List (List (List Rat))) : Result :=
+  let outs := rendered.map (outBlock gain U)
+  let peak := outs.foldl peakBlock (List.replicate n 0)
+  { nChannels := n
+    frames := (outs.flatten).map (fun fr => fr.map (quantise M))
+    peak := peak
+    failed := failOnOverload && hasOverloaded peak }
+
+theorem run_eq_runU (chans : List String) (speakers : Option (List Speaker)) (gain : Rat) (f : Bool) (M : Int)
+    (rendered : List (List (List Rat))) :
+    run chans speakers gain f M rendered =
+      runU (nChannels chans speakers) (speakers.map fun sp => upmix sp chans) gain f M rendered := rfl
+
 /-! Non-vacuity: a 0+2+0 layout routed through a speakers file that swaps the two
 channels onto outputs 2 and 0 with gains 1/2 and 1; one loud sample overloads. -/
 def exSpeakers : List Speaker := [⟨2, ["M+030"], 1/2⟩, ⟨0, ["M-030"], 1⟩]
@@ -768,6 +811,34 @@ theorem eye_identity (n : Nat) (frame : List Rat) (h : frame.length = n) : apply
     rw [eye_row n o ho, dot_single 1 frame o n h ho]
     have : o < frame.length := by omega
     simp [List.getD, this]
+
+/-- One output block with `upmix = eye(n)` is the block without upmix (frames of `n` samples). -/
+theorem outBlock_eye (gain : Rat) (n : Nat) (b : List (List Rat)) (hb : ∀ fr ∈ b, fr.length = n) :
+    outBlock gain (some (eye n)) b = outBlock gain none b := by
+  simp only [outBlock]
+  apply List.map_congr_left
+  intro fr hfr
+  exact eye_identity n _ (by simp [hb fr hfr])
+
+/-- **A speakers file without a `speakers` list gives the same run as no speakers file.** With
+`n_channels = len(layout.channels)` and `upmix = eye(n_channels)` (what `load_output_layout` returns for such a file:
+`load_output_layout_spec`), the whole result record of the run — channel count, written codes, peaks, failure — is that
+of `run` with `speakers = none`, for every sequence of renderer blocks with one sample per layout channel. This is why
+`FileRender.run` / `runFile` need no separate case for it. -/
+theorem run_eye_upmix (chans : List String) (gain : Rat) (f : Bool) (M : Int) (rendered : List (List (List Rat)))
+    (hlen : ∀ b ∈ rendered, ∀ fr ∈ b, fr.length = chans.length) :
+    runU chans.length (some (eye chans.length)) gain f M rendered = run chans none gain f M rendered := by
+  have e : rendered.map (outBlock gain (some (eye chans.length))) = rendered.map (outBlock gain none) :=
+    List.map_congr_left fun b hb => outBlock_eye gain _ b (hlen b hb)
+  simp only [run, runU, nChannels, Option.map_none, e]
+
+/-- Non-vacuity / evaluation: two frames through `eye 2` with gain 1/2 and an overload. -/
+example : runU 2 (some (eye 2)) (1/2) true 32767 [[[1, 3]], [], [[-1/4, 0]]] =
+    run ["M+030", "M-030"] none (1/2) true 32767 [[[1, 3]], [], [[-1/4, 0]]] ∧
+    (run ["M+030", "M-030"] none (1/2) true 32767 [[[1, 3]], [], [[-1/4, 0]]]).frames = [[16383, 32767], [-4095, 0]] ∧
+    (run ["M+030", "M-030"] none (1/2) true 32767 [[[1, 3]], [], [[-1/4, 0]]]).failed = true := by
+  refine ⟨run_eye_upmix ["M+030", "M-030"] (1/2) true 32767 [[[1, 3]], [], [[-1/4, 0]]] (by decide),
+    by decide +kernel, by decide +kernel⟩
 
 /-- **`load_output_layout` with a speakers file, as `FileRender.run` sees it.** If the call succeeds, the file
 was accepted by `load_real_layout`; without a `speakers` list the matrix is the identity on the layout's channels
